@@ -158,6 +158,7 @@ func yieldSlow() {
 		return
 	}
 	yieldCountdown = math.MaxInt64
+	s.faults["sched.preempt"]++
 	s.Park("yield", "", nil, nil)
 }
 
